@@ -393,6 +393,7 @@ class Contract:
         self.src_file = self.fn_spec = None
         self.wrap = None
         self.allow_panic = False
+        self.ret_impl = None
         self.assoc = {}
         self.head = []          # (lineno, text): attributes + signature + clauses
         self.directives = []    # dict(kind, arg, lineno, text[])
@@ -413,6 +414,9 @@ class Contract:
                 self.assoc[k_.strip()] = v_.strip()
             elif s.startswith('//@wrap'):
                 self.wrap = s[len('//@wrap'):].strip()
+            elif s.startswith('//@ret-impl'):
+                # rule D16: `-> impl Trait<..>` is spelled as the concrete type the body returns (rustc checks that it is that type)
+                self.ret_impl = s[len('//@ret-impl'):].strip()
             elif s.startswith('//@body'):
                 in_body = True
             elif s.startswith('//@') and in_body:
@@ -486,6 +490,10 @@ def build_fn(key, mode, log):
     rs_ = norm_real_sig(real_sig)
     for k_, v_ in c.assoc.items():
         rs_ = rs_.replace(k_, v_)
+    if c.ret_impl:
+        if not re.search(r'->\s*impl\b', rs_):
+            raise LostAnchor('%s %s: //@ret-impl but the function does not return `impl Trait`' % (c.src_file, c.fn_spec))
+        rs_ = re.sub(r'->\s*impl\b.*$', '-> ' + c.ret_impl + ' ', rs_, flags=re.S)
     a = tokens(rs_)
     b = tokens(norm_contract_sig(c.signature_text()))
     if a != b:
@@ -495,6 +503,9 @@ def build_fn(key, mode, log):
     prov = dict(key=key, file=c.src_file, fn=c.fn_spec,
                 lines=[line_of(S.text, loc['fn_idx']), line_of(S.text, loc['body_close'])],
                 sha256=hashlib.sha256(item_text.encode()).hexdigest(), mode=mode, rewrites=[])
+    if c.ret_impl:
+        prov['rewrites'].append(dict(rule='D16', where='%s:%d' % (c.src_file, line_of(S.text, loc['fn_idx'])),
+                                     before='-> impl Trait return type', after='-> ' + c.ret_impl))
     dropped = S.text[loc['item_start']:loc['fn_idx']].strip()
     if dropped:
         prov['rewrites'].append(dict(rule='D1', where='%s:%d' % (c.src_file, line_of(S.text, loc['item_start'])),
